@@ -68,6 +68,8 @@ def curated(tier):
             continue
         add("family_zoo", cell, p={"family": fam, "degree": deg, "variant": var, "discontinuous": disc, "itype": ("exterior_facet", "interior_facet")[k % 2]})
     add("int_literals", "triangle")
+    add("tensor3", "triangle", p={"shape": [2, 3, 2], "itype": "interior_facet"})
+    add("tensor3", "tetrahedron", p={"shape": [1, 3, 2], "itype": "exterior_facet"})
     add("facet_plain", "prism")
     add("facet_plain", "prism", p={"degree": 2})
     # mixed-dimensional forms (functions on the facet mesh), sub-meshes of codimension 0, ridge integrals
